@@ -746,6 +746,9 @@ fn evaluate(plan: &PlanB, kernel: &Arc<Kernel>, sh: &Sh, sent_at_ns: &[u64], _en
             let d = match decode(bytes) {
                 Ok(d) => d,
                 Err(e) => {
+                    if matches!(expect, Expect::Forward(_)) {
+                        res.violate("C14", "C14.reencoded_message_does_not_decode", format!("response to {} ({} octets) does not decode: {}", q.qname.to_text(), bytes.len(), e), qi);
+                    }
                     res.violate("C04", if q.tcp { "C04.malformed_response.tcp" } else { "C04.malformed_response.udp" }, format!("response to {} ({} octets) does not decode: {} -- {}", q.qname.to_text(), bytes.len(), e, hex(&bytes[..bytes.len().min(120)])), qi);
                     continue;
                 }
@@ -903,6 +906,10 @@ fn evaluate(plan: &PlanB, kernel: &Arc<Kernel>, sh: &Sh, sent_at_ns: &[u64], _en
                         }
                         for (i, (a, b)) in got[s].iter().zip(expected[s].iter()).enumerate() {
                             if !same_rr_but_ttl(a, b) {
+                                if a.rtype == b.rtype && a.class == b.class {
+                                    /* same record, other name or data: decode -> re-encode is not the identity */
+                                    res.violate("C14", if a.name != b.name { "C14.owner_name_changed_by_reencoding" } else { "C14.rdata_changed_by_reencoding" }, format!("{} record {} of the response to {}: got {:?} upstream said {:?}", names[s], i, q.qname.to_text(), a, b), qi);
+                                }
                                 res.violate("C03", &format!("C03.{}_record_differs", names[s]), format!("{} record {} of the response to {}: got {:?} upstream said {:?}", names[s], i, q.qname.to_text(), a, b), qi);
                                 bad = true;
                                 break;
